@@ -43,7 +43,7 @@ PROPS["C14"] = dict(
 ENCAP_FNS = ["dvb_gse_rust::gse_encap::Encapsulator::<C>::encap", "dvb_gse_rust::gse_encap::Encapsulator::<C>::encap_frag",
              "dvb_gse_rust::gse_encap::Encapsulator::<C>::check_label_re_use", "dvb_gse_rust::gse_encap::generate_gse_header",
              "dvb_gse_rust::label::Label::{len,get_type,get_bytes}"]
-LATTICE = "pdu_len 0..=70000 x buffer_len 0..=70000 (symbolic lengths over zero-filled heap slices of symbolic length), every label/protocol type/frag id/context, arbitrary sender re-use state"
+LATTICE = "pdu_len 0..=70000 x buffer_len 0..=70000 (thorough: 0..=1048576; symbolic lengths over zero-filled heap slices of symbolic length), every label/protocol type/frag id/context, arbitrary sender re-use state"
 ENC_STATE_INV = "sender pre-state assumed: current<=max, !activated => max==0, label memory None / 3-byte / non-zero 6-byte (DESIGN 3.7; preserved by every public operation, see C15 invariant harness)"
 
 PROPS["C18"] = dict(
@@ -369,7 +369,7 @@ PROPS["C12"] = dict(
     harnesses=[H("c12::header_prefix", bounds="all 2^32 (total length, protocol type) pairs", unwind=4, cost=15),
                H("c12::byte_step_pdu", bounds="all (total length, protocol type, byte) triples", unwind=4, cost=15),
                H("c12::byte_step_label", bounds="all (total length, protocol type, byte) triples", unwind=4, cost=15),
-               H("c12::differential", bounds="label length 0/3/6, PDU length 0..=8 (thorough 16), all bytes", unwind=18, cost=60, timeout=900),
+               H("c12::differential", bounds="label length 0/3/6, PDU length 0..=8 (thorough 24), all bytes", unwind=26, cost=60, timeout=900),
                H("c12::check_value", bounds="catalogue check string 123456789", unwind=5, cost=5),
                H("c12::sender_wiring", bounds="PDU <= 12, buffer <= 24, any label / sender state; RecCrc records the call", unwind=8, cost=30),
                H("c06::encap_frag_bytes", bounds=BYTE_TIER + " (CRC trailer = context CRC, big endian, last four bytes)", cost=10, timeout=600),
